@@ -146,7 +146,7 @@ for _w in ("meet", "join"):
          explore_time=900, assumptions=["collection shape (2,) enumerated"])(lambda ctx, _w=_w: lift_coplanar_lines(ctx, _w))
 
 
-@case("C04", "lift.transformation.apply", names("t", 2, 3, 3) + names("p", 2, 3) + names("q", 3), mode="field",
+@case("C04", "lift.transformation.apply", names("t", 2, 3, 3) + names("p", 2, 3) + names("q", 3), mode="field", also=("C07",),
       functions=["geometer.base.Tensor.__apply__", "geometer.transformation.TransformationTensor.__apply__"], timeout=180,
       assumptions=["collection shape (2,) enumerated", "np.linalg.inv leaf = adj/det"])
 def lift_transformation(ctx):
@@ -164,12 +164,18 @@ def lift_transformation(ctx):
     r2 = t0 * pc
     lc = geometer.LineCollection(P)
     r3 = tc * lc
+    r4 = t0 * lc
     for k in range(2):
         ctx.ensure("collection*collection:elementwise", ctx.conj([ctx.zero(r.array[k][i] - geo.matvec(tolist(T[k]), tolist(P[k]))[i]) for i in range(3)]))
         ctx.ensure("collection*single:broadcast", ctx.conj([ctx.zero(r1.array[k][i] - geo.matvec(tolist(T[k]), tolist(q))[i]) for i in range(3)]))
         ctx.ensure("single*collection:broadcast", ctx.conj([ctx.zero(r2.array[k][i] - geo.matvec(tolist(T[0]), tolist(P[k]))[i]) for i in range(3)]))
         single = gt.Transformation(T[k]) * geometer.Line(P[k])
         ctx.ensure("lines:elementwise", ctx.conj([type(r3) is geometer.LineCollection] + [ctx.zero(r3.array[k][i] - single.array[i]) for i in range(3)]))
+        single0 = t0 * geometer.Line(P[k])
+        ctx.ensure("C07:single-transformation*line-collection:elementwise", ctx.conj([type(r4) is geometer.LineCollection, tuple(r4.shape) == (2, 3)] + [ctx.zero(r4.array[k][i] - single0.array[i]) for i in range(3)]), prop="C07")
+        # and the image line contains the image of a point of the line (incidence is preserved for collections)
+        pt = geo.cross(tolist(P[k]), [1, 2, 3])
+        ctx.ensure("C07:image-of-line-collection-contains-image-points", ctx.zero(geo.dot(tolist(r4.array[k]), geo.matvec(tolist(T[0]), pt))), prop="C07")
 
 
 @case("C04", "lift.quadric", ["a%d%d%d" % (k, i, j) for k in range(2) for i in range(3) for j in range(i, 3)] + names("p", 2, 3) + names("q", 3), mode="field",
